@@ -79,6 +79,11 @@ CHECKS = {
   text="Generated-input search over projects x call histories (GenerateGraph / Validate / GenerateIntermediate / Run in any order after the first graph generation) on one long-lived pipeline; every reduction result must equal the first of the session and a brand-new session's result (import sets compared as sets), Validate() must repeat its diagnostics, node and edge counts obtained through the public graph API must stay constant and equal a fresh session's, and the spec and routes bytes generated from the session's last result must equal those of the fresh session. Sampling.",
   note="Trusts: rapid; canonical JSON of GleeceFlattenedMetadata as the equality; in-process driving through public pipeline methods.",
   ref="6/C19"),
+ "C09": dict(
+  technique="property-based testing with rapid: generated projects biased to template concatenation hazards -> real gleece for all five engines -> go/parser + go vet (type-check) + gofmt as validity predicate; attribution of failures by re-running a renamed project",
+  text="Generated-input search over projects whose parameter names collide with identifiers the handlers declare, whose types come from several packages behind slices/pointers/maps, with every result shape, custom errors by value and pointer, experimental flags, response validation and configured package names. Whenever generation succeeds, each of the five routes files must parse, sit in the configured package and type-check (go vet) against the engine, the user's controllers and the authorization package; gofmt -l is evaluated; a failed generation must leave no file. Compile failures are attributed by experiment (same project with the colliding parameters renamed). Sampling.",
+  note="Trusts: rapid; go vet as the type checker; the framework's own stubs/auth packages compile (checked by the same run).",
+  ref="6/C09"),
 }
 
 NOT_APPLICABLE = []
